@@ -38,9 +38,10 @@ LEVEL_TEXT = ("Machine-checked proof (Coq, closed under the global context) over
               "objects under a deterministic scheduler.")
 LEVEL_NOTE = ("Trusted: Coq kernel + vm_compute; the hand-written model coq/Model/C22.v and the identification of its "
               "atomic steps with the code between switch points (validated by the enumeration, and by the "
-              "lock-discipline oracle that flags any access to the shared flags outside the lock); blocking "
-              "(timeout None) is not modelled: channels run with timeout 0.0; _pipe (fileno) and channel requests "
-              "are outside the model.")
+              "lock-discipline oracle that flags any access to the shared flags outside the lock); channels run "
+              "with timeout 0.0 or None (writers then block in out_buffer_cv.wait, an instrumented switch point); "
+              "timed waits (0 < timeout) are not modelled; _pipe (fileno) and channel requests "
+              "are outside the model; blocking is modelled for writers (out_buffer_cv) but not for recv.")
 TECHNIQUE = "Coq invariant proof over all schedules + deterministic-scheduler enumeration of real Channel objects"
 
 CHANID = 7
@@ -74,6 +75,9 @@ class DetSched:
         self.anomalies = []
         self.hung = False
         self.cs_count = 0           # number of critical sections completed so far (lock order)
+        self.epoch = 0              # number of notify_all() calls on out_buffer_cv
+        self.blocked = [None] * n   # epoch at which the thread started waiting on out_buffer_cv
+        self.deadlock = False       # the run ended with every unfinished thread blocked
         self.prefix = list(prefix)
         self.chooser = chooser
         self.lenient = False
@@ -84,8 +88,11 @@ class DetSched:
         return getattr(self.tls, "tid", None)
 
     def pick(self):
-        en = [i for i in range(self.n) if not self.done[i]]
+        en = [i for i in range(self.n) if not self.done[i]
+              and (self.blocked[i] is None or self.blocked[i] < self.epoch)]
         if not en:
+            self.deadlock = not all(self.done)
+            self.done_at_end = list(self.done)      # False = still inside out_buffer_cv.wait()
             return None
         k = len(self.schedule)
         if k >= self.MAX_STEPS:
@@ -132,6 +139,21 @@ class DetSched:
         self.wsem[t].acquire()
         if not self.live:
             raise Abort()
+
+    def sp_wait(self, mark):
+        """switch point inside out_buffer_cv.wait(): not enabled until a notify_all after `mark`"""
+        t = self.tid()
+        self.blocked[t] = mark
+        nxt = self.pick()
+        if nxt is None:
+            self.live = False
+            self.csem.release()
+            raise Abort()
+        self.wsem[nxt].release()
+        self.wsem[t].acquire()
+        if not self.live:
+            raise Abort()
+        self.blocked[t] = None
 
     def finish(self, t):
         self.done[t] = True
@@ -214,8 +236,10 @@ class ILock:
         return True
 
     def release(self):
-        self.owner = None
         sched = self.sched
+        if not sched.live and not self.real.locked():
+            return      # the run was torn down while this thread was inside cv.wait()
+        self.owner = None
         if sched.tid() is not None:
             sched.cs_count += 1
             sched.tls.last_cs = sched.cs_count
@@ -231,6 +255,34 @@ class ILock:
 
     def __exit__(self, *a):
         self.release()
+
+
+class ICond:
+    """out_buffer_cv: wait() is a switch point at which the thread stays disabled until notified."""
+
+    def __init__(self, lock, sched):
+        self.lock = lock
+        self.sched = sched
+
+    def wait(self, timeout=None):
+        sched = self.sched
+        if sched.tid() is None or not sched.live:
+            raise RuntimeError("out_buffer_cv.wait() outside the deterministic scheduler")
+        if timeout is not None:
+            sched.abort_run("timed wait on out_buffer_cv (only timeout None / 0.0 are supported)")
+        mark = sched.epoch
+        self.lock.release()         # the critical section ends here
+        sched.sp_wait(mark)
+        if not self.lock.real.acquire(False):
+            sched.abort_run("channel lock held by a parked thread (a switch point inside a critical section)")
+        self.lock.owner = threading.get_ident()
+        return True
+
+    def notify_all(self):
+        self.sched.epoch += 1
+
+    def notify(self, n=1):
+        self.sched.epoch += 1
 
 
 def make_classes():
@@ -380,7 +432,7 @@ class Run:
 
     def __init__(self, classes, init, progs, prefix, chooser, lenient=False):
         TChan, StubTransport = classes
-        act, w, p, buf, th = init
+        act, blk, w, p, buf, th = init
         n = len(progs)
         self.sched = sched = DetSched(n, prefix, chooser)
         sched.lenient = lenient
@@ -393,13 +445,15 @@ class Run:
         chan.out_window_size = w
         chan.out_max_packet_size = p
         chan.active = 1 if act else 0
-        chan.settimeout(0.0)
+        chan.settimeout(None if blk else 0.0)
         if buf:
             chan.in_buffer.feed(b"i" * buf)
         stub._channels.put(CHANID, chan)
         stub.channels_seen[CHANID] = True
         chan.__dict__["_unlocked"] = set()
         chan.__dict__["lock"] = ILock(chan.__dict__["lock"], sched)
+        chan.__dict__["out_buffer_cv"] = ICond(chan.__dict__["lock"], sched)
+        self.cur = [0] * n
         chan.__dict__["_sched"] = sched
         self.progs = progs
         self.results = [[] for _ in progs]
@@ -418,11 +472,14 @@ class Run:
                 d = chan.__dict__
                 start = (len(self.stub.sent), bool(d["closed"]), bool(d["eof_sent"]))
                 sched.tls.cur = j
+                self.cur[i] = j
                 try:
                     r = do_op(chan, self.stub, sched, op)
                 except Abort:
                     raise
                 except Exception as e:  # noqa
+                    if not sched.live:
+                        raise Abort()
                     r = canon_exc(e)
                     if r == [1, 100]:
                         self.errors.append(repr(e))
@@ -431,7 +488,8 @@ class Run:
         except Abort:
             pass
         except BaseException as e:  # noqa
-            self.errors.append(repr(e))
+            if sched.live:
+                self.errors.append(repr(e))
         finally:
             sched.tls.tid = None
             sched.finish(i)
@@ -456,6 +514,8 @@ class Run:
                 sched.wsem[first].release()
                 sched.wait_controller(timeout=20.0)
         # tear down
+        if not hasattr(sched, "done_at_end"):
+            sched.done_at_end = list(sched.done)
         self.stub.recording = False
         sched.shutdown()
         lost = False
@@ -479,7 +539,8 @@ class Run:
             out += r + [-2]
         out += [-3, int(bool(d["closed"])), int(bool(d["eof_sent"])), int(bool(d["eof_received"])),
                 int(stub._channels.get(CHANID) is not None), d["out_window_size"],
-                len(chan.in_buffer._buffer), d["in_window_sofar"], 0, 0]
+                len(chan.in_buffer._buffer), d["in_window_sofar"], 0,
+                sum(len(self.progs[i]) - self.cur[i] for i in range(len(self.progs)) if not self.sched.done_at_end[i])]
         return wire, out
 
 
@@ -604,20 +665,28 @@ def oracle(ctx, init, progs, schedule, run, wire):
 
 FIXED = [
     # (init, programs): always enumerated exhaustively
-    ((True, 100, 1000, 0, 10), [[("OSend", 5)], [("OClose",)]]),
-    ((True, 100, 1000, 0, 10), [[("OSendErr", 3)], [("OShutdown", 1)]]),
-    ((True, 100, 1000, 0, 10), [[("OShutdown", 1)], [("OClose",)]]),
-    ((True, 100, 1000, 0, 10), [[("OClose",)], [("OClose",)]]),
-    ((True, 100, 1000, 0, 10), [[("OShutdown", 1)], [("OShutdown", 2)]]),
-    ((True, 100, 1000, 0, 10), [[("OClose",), ("OSend", 4)], [("OPeerClose",), ("OPeerClose",)]]),
-    ((True, 100, 1000, 0, 10), [[("OPeerEof",), ("OPeerClose",)], [("OClose",)], [("OSend", 2)]]),
-    ((True, 100, 1000, 6, 2), [[("ORecv", 4), ("ORecv", 4)], [("OClose",)]]),
-    ((True, 100, 1000, 0, 2), [[("OPeerData", 5), ("OPeerEof",)], [("ORecv", 9), ("OShutdown", 0)]]),
-    ((True, 0, 1000, 0, 10), [[("OSend", 5), ("OSend", 5)], [("OPeerWa", 7)]]),
-    ((True, 100, 1000, 0, 10), [[("OUnlink",)], [("OPeerClose",)], [("OShutdown", 1)]]),
-    ((True, 100, 1000, 0, 10), [[("OPeerFail",)], [("OClose",)], [("OSend", 1)]]),
-    ((False, 100, 1000, 0, 10), [[("OClose",), ("OShutdown", 1)], [("OPeerClose",), ("OSend", 3)]]),
-    ((True, 100, 70, 0, 10), [[("OSend", 50)], [("OSendErr", 60)], [("OShutdown", 2)]]),
+    ((True, False, 100, 1000, 0, 10), [[("OSend", 5)], [("OClose",)]]),
+    ((True, False, 100, 1000, 0, 10), [[("OSendErr", 3)], [("OShutdown", 1)]]),
+    ((True, False, 100, 1000, 0, 10), [[("OShutdown", 1)], [("OClose",)]]),
+    ((True, False, 100, 1000, 0, 10), [[("OClose",)], [("OClose",)]]),
+    ((True, False, 100, 1000, 0, 10), [[("OShutdown", 1)], [("OShutdown", 2)]]),
+    ((True, False, 100, 1000, 0, 10), [[("OClose",), ("OSend", 4)], [("OPeerClose",), ("OPeerClose",)]]),
+    ((True, False, 100, 1000, 0, 10), [[("OPeerEof",), ("OPeerClose",)], [("OClose",)], [("OSend", 2)]]),
+    ((True, False, 100, 1000, 6, 2), [[("ORecv", 4), ("ORecv", 4)], [("OClose",)]]),
+    ((True, False, 100, 1000, 0, 2), [[("OPeerData", 5), ("OPeerEof",)], [("ORecv", 9), ("OShutdown", 0)]]),
+    ((True, False, 0, 1000, 0, 10), [[("OSend", 5), ("OSend", 5)], [("OPeerWa", 7)]]),
+    ((True, False, 100, 1000, 0, 10), [[("OUnlink",)], [("OPeerClose",)], [("OShutdown", 1)]]),
+    ((True, False, 100, 1000, 0, 10), [[("OPeerFail",)], [("OClose",)], [("OSend", 1)]]),
+    ((False, False, 100, 1000, 0, 10), [[("OClose",), ("OShutdown", 1)], [("OPeerClose",), ("OSend", 3)]]),
+    ((True, False, 100, 70, 0, 10), [[("OSend", 50)], [("OSendErr", 60)], [("OShutdown", 2)]]),
+    # blocking sends (timeout None): writers waiting on out_buffer_cv
+    ((True, True, 0, 1000, 0, 10), [[("OSend", 5)], [("OShutdown", 1), ("OPeerWa", 7)]]),
+    ((True, True, 0, 1000, 0, 10), [[("OSend", 5)], [("OClose",)]]),
+    ((True, True, 0, 1000, 0, 10), [[("OSend", 5)], [("OPeerWa", 3)], [("OSendErr", 4)]]),
+    ((True, True, 0, 1000, 0, 10), [[("OSendErr", 5)], [("OPeerClose",)], [("OPeerWa", 2)]]),
+    ((True, True, 0, 1000, 0, 10), [[("OSend", 5), ("OSend", 2)], [("OPeerWa", 4), ("OShutdown", 1), ("OPeerWa", 2)]]),
+    ((True, True, 0, 1000, 0, 10), [[("OSend", 5)], [("OShutdown", 2)], [("OPeerWa", 1), ("OPeerWa", 1)]]),
+    ((True, True, 3, 1000, 0, 10), [[("OSend", 3), ("OSend", 3)], [("OUnlink",)], [("OPeerWa", 9)]]),
 ]
 
 
@@ -649,8 +718,12 @@ def gen_case(rng):
     for i in range(nthreads):
         role = rng.choice(["user", "user", "peer", "any"]) if i > 0 else "user"
         progs.append([gen_op(rng, role) for _ in range(rng.randrange(1, maxops + 1))])
-    init = (rng.random() < 0.92, rng.choice([0, 4, 100, 100]), rng.choice([70, 1000, 1000]),
-            rng.choice([0, 0, 3, 12]), rng.choice([2, 10]))
+    blk = rng.random() < 0.35
+    if blk:
+        # a blocking recv would wait inside BufferedPipe (not instrumented): no recv in blocking cases
+        progs = [[op if op[0] != "ORecv" else ("OPeerWa", rng.choice([1, 5])) for op in p] for p in progs]
+    init = (rng.random() < 0.92, blk, rng.choice([0, 0, 4, 100] if blk else [0, 4, 100, 100]),
+            rng.choice([70, 1000, 1000]), rng.choice([0, 0, 3, 12]), rng.choice([2, 10]))
     return init, progs
 
 
@@ -659,17 +732,17 @@ def coq_progs(progs):
 
 
 def coq_case(init, progs, schedule):
-    return "((%s, %d, %d, %d, %d), %s, %s)" % (coq(bool(init[0])), init[1], init[2], init[3], init[4],
-                                              coq_progs(progs), coq(list(schedule)))
+    return "((%s, %s, %d, %d, %d, %d), %s, %s)" % (coq(bool(init[0])), coq(bool(init[1])), init[2], init[3], init[4],
+                                                  init[5], coq_progs(progs), coq(list(schedule)))
 
 
-CASE_T = "((bool * Z * Z * Z * Z) * list (list op) * list Z)"
-SET_T = "((bool * Z * Z * Z * Z) * list (list op) * Z)"
+CASE_T = "((bool * bool * Z * Z * Z * Z) * list (list op) * list Z)"
+SET_T = "((bool * bool * Z * Z * Z * Z) * list (list op) * Z)"
 
 
 def coq_set(init, progs, cap):
-    return "((%s, %d, %d, %d, %d), %s, %d)" % (coq(bool(init[0])), init[1], init[2], init[3], init[4],
-                                              coq_progs(progs), cap)
+    return "((%s, %s, %d, %d, %d, %d), %s, %d)" % (coq(bool(init[0])), coq(bool(init[1])), init[2], init[3], init[4],
+                                                  init[5], coq_progs(progs), cap)
 
 
 def dedup(outs):
@@ -704,9 +777,12 @@ def run(ctx):
                     "comparison under the deterministic scheduler (vm_compute of the model's own run function)",
                     "atomicity of the code between switch points (channel lock held; checked by the lock-discipline "
                     "oracle on eof_sent/closed/eof_received/out_window_size/in_window_sofar)",
-                    "blocking waits are not modelled (channel timeout 0.0)"]
+                    "writers block on out_buffer_cv only with timeout None (instrumented condition); timed waits and blocking recv are not modelled"]
     ctx.assumptions += ["the transport delivers the messages handed to _send_user_message in call order (C01)"]
+    import time as _time
+    _t0 = _time.time()
     ctx.prove()
+    _t1 = _time.time()
     classes = make_classes()
 
     budget = 50000 if ctx.thorough else 4500
@@ -760,7 +836,8 @@ def run(ctx):
             break
     ctx.exhaustive = False
     ctx.traces = total
-    ctx.log("executed %d schedules of %d program sets on the implementation" % (total, nsets))
+    ctx.log("executed %d schedules of %d program sets on the implementation (proofs %.1fs, enumeration %.1fs)" % (
+        total, nsets, _t1 - _t0, _time.time() - _t1))
     ctx.notes.append("%d program sets (%d enumerated completely), %d schedules executed on real Channel objects (%d by "
                      "random walks beyond the per-set cap); known finding observed on %d schedules; EOF emitted after "
                      "CLOSE (shutdown_write racing close, same root cause, outside the property text) on %d schedules" % (
@@ -807,7 +884,7 @@ def replay(ctx, rep):
     classes = make_classes()
     progs = [[tuple(op) for op in p] for p in case["programs"]]
     init = tuple(case["init"])
-    init = (bool(init[0]),) + init[1:]
+    init = (bool(init[0]), bool(init[1])) + init[2:]
     schedule = list(case["schedule"])
     for _ in range(2):
         taken, _, r = execute(classes, init, progs, schedule, lambda en: en[0], lenient=True)
